@@ -166,7 +166,7 @@ var boundExclusions = []boundExclusion{
 	{"common/ntor:Kdf", "panic", "HKDF read fails only beyond 255*32 bytes; the module requests the constant 144 (C06.R2)"},
 	{"internal/x25519ell2:*", "panic", "deserialisation of fixed 32-byte values cannot fail; guards are library-invariant assertions"},
 	{"common/uniformdh:init$1", "panic", "package initialisation of a constant"},
-	{"transports/meeklite:(*meekConn).Read", "panic(empty read buffer)", "needs the heap invariant rdBuf != nil => rdBuf.Len() > 0 (established by Read itself on every path that stores rdBuf)"},
+	{"transports/meeklite:(*meekConn).Read", "panic(empty read buffer)", "needs the heap invariant rdBuf != nil => rdBuf.Len() > 0, which is decided separately by C10.R5/C16.R7 rdBuf#nil-or-nonempty"},
 	{"transports/scramblesuit:(*ssConn).readPackets", "slice transports/scramblesuit.ssRxState", "data[:payloadLen] needs payloadLen <= totalLen, a relational invariant between two struct fields that is checked when they are stored"},
 	{"transports/scramblesuit:(*ssConn).readPackets", "[:transports/scramblesuit.ssRxState.payloadLen]", "data[:payloadLen] needs payloadLen <= totalLen, a relational invariant between two struct fields that is checked when they are stored"},
 	{"transports/obfs4:(*obfs4ServerCert).unpack", "panic", "cert.raw temporarily holds the 20-byte node id during construction (flow-sensitive heap fact); both finished certificates are 52 bytes (C06.R8/C18.R4)"},
@@ -297,6 +297,8 @@ func runC10(c *Ctx) {
 
 	// ---- R4/R5 bounds and panics
 	n := boundsRule(c, net, "R4", "R5", nil)
+	// the one assertion excluded from the bounds rule for needing a heap invariant: decided structurally
+	meekRdBufInvariant(c, p, "R5")
 	o = c.Obl("R4", "count", "anti-vacuity: the bounds engine discharged at least the obligations confirmed on the reference tree")
 	if n < 100 {
 		o.Undecide("only %d bounds obligations discharged", n)
